@@ -580,9 +580,12 @@ def check_c03(idx: Index, tier: str, res: Result) -> None:
     # ---- (5) loud failure --------------------------------------------------------------------------------------------------------
     pe = idx.func(PY, "parseExpression")
     branches = {}
-    for n in pe.node.body:
-        if isinstance(n, ast.If) and isinstance(n.test, ast.Compare) and 'expression["type"]' in src(n.test).replace("'", '"'):
-            branches[const_str(n.test.comparators[0])] = n
+    for n in walk_no_nested(pe.node):            # a sequence of ifs or an if/elif chain
+        if isinstance(n, ast.If) and isinstance(n.test, ast.Compare) and 'expression["type"]' in src(n.test).replace("'", '"') \
+                and const_str(n.test.comparators[0]) not in branches:
+            # the branch is the body of the if only (an elif chain hangs the next kinds below its orelse)
+            branches[const_str(n.test.comparators[0])] = ast.If(test=n.test, body=n.body, orelse=[])
+            ast.copy_location(branches[const_str(n.test.comparators[0])], n)
     for kind in ("call", "operator"):
         if kind not in branches:
             raise AnalysisError("parseExpression: %s branch not found" % kind)
@@ -868,7 +871,9 @@ def _ir_literals(idx: Index, res: Result, binary: Dict[str, XRenderer], ops: Dic
     lit_env = {"operator": opsargs.pop()}
     res.check("IRLIT", "flows are joined with '+'", lit_env["operator"] == "+", sx.loc(), sx.qual, "JoinedExpression(..., %r)" % lit_env["operator"],
               "inflows/outflows are joined with %r instead of '+'" % lit_env["operator"], key="IRLIT/StockExpressions/join-operator")
-    for rel, quals in ((STOCKX, ["StockExpressions", "JoinedExpression", "JoinedExpression.reduce"]), (XMILE, ["parse_xmile"])):
+    # the functions that build IR literals: the plugin, the join helper and whatever it nests (the fold may be a nested function or a loop)
+    joinq = ["JoinedExpression"] + sorted(q for q in idx.module(STOCKX).functions if q.startswith("JoinedExpression."))
+    for rel, quals in ((STOCKX, ["StockExpressions"] + joinq), (XMILE, ["parse_xmile"])):
         for q in quals:
             fi = idx.func(rel, q)
             tops = []
@@ -1127,57 +1132,88 @@ def _join_fold(idx: Index, res: Result) -> int:
                 for t in n.targets:
                     if isinstance(t, ast.Name):
                         assigns.setdefault(t.id, []).append(n)
-        # (a) partition
-        def slice_of(name):
-            for a in assigns.get(name, []):
-                v = a.value
-                if isinstance(v, ast.Subscript) and src(v.value) == names and isinstance(v.slice, ast.Slice):
-                    lo = src(v.slice.lower) if v.slice.lower else None
-                    hi = src(v.slice.upper) if v.slice.upper else None
-                    return lo, hi, a
+        # (a) partition: the list folded is a slice of the names and the seed of the accumulator holds exactly the remaining ones.
+        #     Written either with named slices (tail = names[-2:]; rest = names[:-2]; seed from tail[0], tail[1]) or directly
+        #     (for n in names[:-2] ... seeded from names[-2], names[-1]).
+        def int_of(e) -> Optional[int]:
+            if isinstance(e, ast.UnaryOp) and isinstance(e.op, ast.USub) and isinstance(e.operand, ast.Constant) and isinstance(e.operand.value, int):
+                return -e.operand.value
+            if isinstance(e, ast.Constant) and isinstance(e.value, int) and not isinstance(e.value, bool):
+                return e.value
             return None
-        rest_sl = slice_of(coll) if coll != names else (None, None, None)
-        seeds = [nm for nm in assigns if nm != coll and slice_of(nm)]
-        ok_part, why = False, "the list folded (%s) and the seed of the accumulator are not complementary slices of %s" % (coll, names)
-        seed_name = seeds[0] if seeds else None
-        if rest_sl and seed_name:
-            slo, shi, _ = slice_of(seed_name)
-            rlo, rhi, _ = rest_sl
-            # tail = names[-k:], rest = names[:-k]   or   head = names[:k], rest = names[k:]
-            if (slo is not None and shi is None and rlo is None and rhi == slo) or (shi is not None and slo is None and rhi is None and rlo == shi):
-                ok_part = True
-                k = abs(int(slo or shi)) if (slo or shi).lstrip("-").isdigit() else None
-                acc_seed = [a for a in walk_no_nested(fi.node) if isinstance(a, ast.Assign) and isinstance(a.value, ast.Dict)
-                            and any("%s[" % seed_name in src(x) for x in ast.walk(a.value) if isinstance(x, ast.Subscript))]
-                if k is not None and acc_seed:
-                    used = sorted({src(x.slice) for x in ast.walk(acc_seed[0].value) if isinstance(x, ast.Subscript) and src(x.value) == seed_name})
-                    if used != [str(i) for i in range(k)]:
-                        ok_part, why = False, "the accumulator's seed uses %s[%s] of a %d-element slice" % (seed_name, ",".join(used), k)
-        res.check("JOIN", "%s: seed and folded list partition the names" % qual, ok_part, fi.loc(lp), fi.qual, "%s / %s" % (seed_name, coll), why,
-                  key="JOIN/%s/partition" % qual)
-        # (b) loop-carried accumulator
-        body_assigns = [n for n in lp.body if isinstance(n, ast.Assign) and isinstance(n.targets[0], ast.Name) and isinstance(n.value, ast.Call)]
+
+        def as_slice(e):
+            """(lo, hi) of names[lo:hi], following one local name"""
+            if isinstance(e, ast.Name) and e.id != names and len(assigns.get(e.id, [])) == 1:
+                e = assigns[e.id][0].value
+            if isinstance(e, ast.Subscript) and src(e.value) == names and isinstance(e.slice, ast.Slice) and e.slice.step is None:
+                lo = int_of(e.slice.lower) if e.slice.lower is not None else None
+                hi = int_of(e.slice.upper) if e.slice.upper is not None else None
+                if (e.slice.lower is None or lo is not None) and (e.slice.upper is None or hi is not None):
+                    return lo, hi
+            return None
+        rest_sl = as_slice(it)
+        # the statement that updates the accumulator in the loop
+        body_assigns = [n for n in lp.body if isinstance(n, ast.Assign) and isinstance(n.targets[0], ast.Name) and isinstance(n.value, (ast.Call, ast.Dict))]
         if len(body_assigns) != 1:
             raise AnalysisError("%s: fold loop body not understood" % qual)
         st = body_assigns[0]
         acc = st.targets[0].id
-        argn = [{x.id for x in ast.walk(a) if isinstance(x, ast.Name)} for a in st.value.args]
+        seeds_ = [a for a in assigns.get(acc, []) if seq(a) < seq(lp)]
+        # indices of names the seed holds (through a named slice or directly)
+        seed_idx: Set[int] = set()
+        seed_name = None
+        ok_part, why = False, "the list folded (%s) and the seed of the accumulator are not complementary parts of %s" % (coll, names)
+        if seeds_ and rest_sl is not None:
+            for x in ast.walk(seeds_[-1].value):
+                if isinstance(x, ast.Subscript) and not isinstance(x.slice, ast.Slice) and int_of(x.slice) is not None:
+                    i_ = int_of(x.slice)
+                    if src(x.value) == names:
+                        seed_idx.add(i_)
+                    else:
+                        sl = as_slice(x.value)
+                        if sl is not None:
+                            seed_name = src(x.value)
+                            lo, hi = sl
+                            # tail = names[-k:] -> tail[i] is names[-k+i];  head = names[:k] -> head[i] is names[i]
+                            if lo is not None and lo < 0 and hi is None and i_ >= 0:
+                                seed_idx.add(lo + i_)
+                            elif lo is None and hi is not None and hi > 0 and i_ >= 0:
+                                seed_idx.add(i_)
+                            else:
+                                seed_idx.add(10 ** 6)
+            rlo, rhi = rest_sl
+            if rlo is None and rhi is not None and rhi < 0:                    # rest = names[:-k]  <->  seed = names[-k..-1]
+                ok_part = seed_idx == set(range(rhi, 0))
+            elif rhi is None and rlo is not None and rlo > 0:                  # rest = names[k:]   <->  seed = names[0..k-1]
+                ok_part = seed_idx == set(range(0, rlo))
+            if not ok_part:
+                why = "the fold runs over %s[%s:%s] but the accumulator's seed holds the names at %s" % (
+                    names, "" if rlo is None else rlo, "" if rhi is None else rhi, sorted(seed_idx))
+        res.check("JOIN", "%s: seed and folded list partition the names" % qual, ok_part, fi.loc(lp), fi.qual, "%s / %s" % (seed_name or "seed", coll), why,
+                  key="JOIN/%s/partition" % qual)
+        # (b) loop-carried accumulator
+        if isinstance(st.value, ast.Call):
+            argn = [{x.id for x in ast.walk(a) if isinstance(x, ast.Name)} for a in st.value.args]
+        else:
+            argn = [{x.id for x in ast.walk(st.value) if isinstance(x, ast.Name)}]
         carried = any(acc in a for a in argn)
         takes_elem = any(elem in a for a in argn)
         res.check("JOIN", "%s: the fold threads its accumulator" % qual, carried, fi.loc(st), fi.qual, norm_stmt(st),
                   "each turn of the loop computes %s from %s and not from the accumulator %s of the previous turn: with more than three names "
-                  "the ones folded earlier are dropped from the sum" % (acc, src(st.value), acc), key="JOIN/%s/accumulator-not-carried" % qual)
+                  "the ones folded earlier are dropped from the sum" % (acc, src(st.value)[:80], acc), key="JOIN/%s/accumulator-not-carried" % qual)
         res.check("JOIN", "%s: every element of %s enters the fold" % (qual, coll), takes_elem, fi.loc(st), fi.qual, norm_stmt(st),
-                  "the fold step %s does not take the loop element %s" % (src(st.value), elem), key="JOIN/%s/element-not-folded" % qual)
-        # (c) the step function keeps both of its arguments
-        stepf = idx.try_func(STOCKX, "%s.%s" % (qual, call_name(st.value)))
-        if stepf is None:
-            raise AnalysisError("%s: fold step %s not found" % (qual, call_name(st.value)))
-        ps = params(stepf.node)
-        rets = [r for r in walk_no_nested(stepf.node) if isinstance(r, ast.Return)]
-        used = {x.id for r in rets for x in ast.walk(r) if isinstance(x, ast.Name)}
-        res.check("JOIN", "%s.%s keeps both arguments" % (qual, stepf.name), set(ps) <= used, stepf.loc(), stepf.qual, src(rets[0].value)[:80] if rets else "",
-                  "the fold step returns a node without %s" % sorted(set(ps) - used), key="JOIN/%s/step-drops-argument" % qual)
+                  "the fold step %s does not take the loop element %s" % (src(st.value)[:80], elem), key="JOIN/%s/element-not-folded" % qual)
+        # (c) the step function keeps both of its arguments (when the step is a function of its own)
+        if isinstance(st.value, ast.Call):
+            stepf = idx.try_func(STOCKX, "%s.%s" % (qual, call_name(st.value)))
+            if stepf is None:
+                raise AnalysisError("%s: fold step %s not found" % (qual, call_name(st.value)))
+            ps = params(stepf.node)
+            rets = [r for r in walk_no_nested(stepf.node) if isinstance(r, ast.Return)]
+            used = {x.id for r in rets for x in ast.walk(r) if isinstance(x, ast.Name)}
+            res.check("JOIN", "%s.%s keeps both arguments" % (qual, stepf.name), set(ps) <= used, stepf.loc(), stepf.qual, src(rets[0].value)[:80] if rets else "",
+                      "the fold step returns a node without %s" % sorted(set(ps) - used), key="JOIN/%s/step-drops-argument" % qual)
         # (d) the accumulator is what is returned after the loop
         inside = [r for r in ast.walk(lp) if isinstance(r, ast.Return)]
         res.check("JOIN", "%s: the fold runs over all of %s" % (qual, coll), not inside, fi.loc(inside[0]) if inside else fi.loc(lp), fi.qual,
@@ -1212,7 +1248,11 @@ def check_c04(idx: Index, tier: str, res: Result) -> None:
     ops = {r.name: r for r in renderers if r.kind == "operator"}
     sx = idx.func(STOCKX, "StockExpressions")
     # ---- (1) the stock literal ---------------------------------------------------------------------------------------
-    exprs = [n for n in walk_no_nested(sx.node) if isinstance(n, ast.Assign) and src(n.targets[0]) == "expression" and isinstance(n.value, ast.Dict)]
+    # the stock literal: the IF(...) call node the plugin builds, whatever it is bound to (a local or the entity's equation directly)
+    def _is_if_literal(d) -> bool:
+        m_ = {const_str(k): v for k, v in zip(d.keys, d.values)} if isinstance(d, ast.Dict) else {}
+        return const_str(m_.get("name", ast.Constant(0))) == "IF" and const_str(m_.get("type", ast.Constant(0))) == "call"
+    exprs = [n for n in walk_no_nested(sx.node) if isinstance(n, ast.Assign) and _is_if_literal(n.value)]
     if len(exprs) != 1:
         raise AnalysisError("StockExpressions: the stock expression literal was not found")
     ir = _ir_from_literal(exprs[0].value, {})
